@@ -762,3 +762,24 @@ package iterator
 //@   ensures protoAll(func() fp.Iterator[T] { return Flatten(fp.Iterator[fp.Iterator[T]]{}) }, []T{})
 //@   ensures zeroDupOK(p)
 //
+// Lazy lists: ToList / FromList round trip (bounded).
+//
+//@ lemma boundedList[T any](a, b, c T)
+//@   prop C12 C20
+//@   option unroll
+//@   ensures Eq(fp.Seq[T](ToList(Of(a, b, c)).ToSeq()), fp.Seq[T]{a, b, c})
+//@   ensures Eq(ToSeq(FromList(ToList(Of(a, b, c)))), fp.Seq[T]{a, b, c})
+//@   ensures ToList(Of[T]()).IsEmpty()
+//@   ensures protoAll(func() fp.Iterator[T] { return List(ToList(Of(a, b))) }, []T{a, b})
+//
+//@ import "github.com/csgura/fp/lazy"
+//
+// (the non-empty case `FoldRight(Of(a, b), zero, f).Get() == g(a, g(b, zero))` is not stated: govc's
+// recursion guard compares arguments only and reports "recursion re-enters iterator.FoldRight with
+// identical arguments" although the iterator argument has advanced - verifier limitation)
+//
+//@ lemma boundedFoldRight[A, B any](a, b A, zero B, g func(A, B) B)
+//@   prop C12 C11
+//@   option unroll
+//@   ensures Eq(FoldRight(Of[A](), zero, func(x A, acc lazy.Eval[B]) lazy.Eval[B] { return lazy.Done(g(x, acc.Get())) }).Get(), zero)
+//
